@@ -15,6 +15,7 @@ package parser
 
 //@ iface (n Node) Type() (t *Type)
 //@   trusted
+//@   pure
 //@   ensures t != nil
 //@   modifies nothing
 
@@ -154,3 +155,62 @@ package parser
 //@   ensures[C05 every-branch-returns] r == (i.Else != nil && i.Else.alwaysTerms && i.IfBlock.Block.alwaysTerms && forall(j, int, 0 <= j && j < len(i.ElseIfBlocks) ==> i.ElseIfBlocks[j].Block.alwaysTerms))
 //@   modifies nothing
 //@   loop 1 invariant -1 <= rangeindex && rangeindex < len(i.ElseIfBlocks) && i.Else != nil && i.Else.alwaysTerms && i.IfBlock.Block.alwaysTerms && forall(j, int, 0 <= j && j <= rangeindex ==> i.ElseIfBlocks[j].Block.alwaysTerms)
+
+// ---- C04/C05: the operator table is enforced: an operator application is accepted (no diagnostic) exactly
+// when docs/spec.md allows it ----
+
+//@ func (t *Type) String() (s string)
+//@   noverify renders a type for diagnostics; read-only recursion over the descriptor
+//@   opt nilrecv true
+//@   modifies nothing
+
+//@ func (b *BinaryExpression) Token() (t *lexer.Token)
+//@   noverify getter
+//@   ensures t == b.token
+//@   modifies nothing
+
+//@ func (u *UnaryExpression) Token() (t *lexer.Token)
+//@   noverify getter
+//@   ensures t == u.token
+//@   modifies nothing
+
+// okBinary: the operator table of docs/spec.md over the static operand types.
+//@ pure okBinary(op Operator, lt *Type, rt *Type) bool = op != OP_ILLEGAL && op != OP_BANG && (mat(lt, rt) || (lt.Name == ARRAY && op == OP_ASTERISK)) && (op == OP_PLUS ==> lt == NUM_TYPE || lt == STRING_TYPE || lt.Name == ARRAY) && (op == OP_ASTERISK ==> lt == NUM_TYPE || (lt.Name == ARRAY && rt == NUM_TYPE)) && (op == OP_MINUS || op == OP_SLASH || op == OP_PERCENT ==> lt == NUM_TYPE) && (op == OP_LT || op == OP_GT || op == OP_LTEQ || op == OP_GTEQ ==> lt == NUM_TYPE || lt == STRING_TYPE) && (op == OP_AND || op == OP_OR ==> lt == BOOL_TYPE)
+
+//@ func (p *parser) validateBinaryType(binaryExp *BinaryExpression) ()
+//@   props C04 C05
+//@   requires binaryExp != nil && binaryExp.token != nil && binaryExp.Left != nil && binaryExp.Right != nil
+//@   let lt = callres("(Node).Type", 1, 0).(*Type)
+//@   let rt = callres("(Node).Type", 2, 0).(*Type)
+//@   ensures[C04 C05 operator-table] ncalls("(*parser).appendErrorForToken") <= 1 && (binaryExp.Op == OP_ILLEGAL || binaryExp.Op == OP_BANG ==> ncalls("(*parser).appendErrorForToken") == 1)
+//@   ensures[C04 C05 operator-table-typed] binaryExp.Op != OP_ILLEGAL && binaryExp.Op != OP_BANG ==> ncalls("(Node).Type") == 2 && callarg("(Node).Type", 1, 0) == binaryExp.Left && callarg("(Node).Type", 2, 0) == binaryExp.Right && ((ncalls("(*parser).appendErrorForToken") == 0) <==> okBinary(binaryExp.Op, lt, rt))
+//@   ensures[C03 located] ncalls("(*parser).appendErrorForToken") == 1 ==> callarg("(*parser).appendErrorForToken", 1, 2).(*lexer.Token) == binaryExp.token
+//@   modifies p.errors, class elem:*parser.Error
+
+//@ func (p *parser) validateUnaryType(unaryExp *UnaryExpression) ()
+//@   props C04 C05
+//@   requires unaryExp != nil && unaryExp.token != nil && unaryExp.Right != nil
+//@   let rt = callres("(Node).Type", 1, 0).(*Type)
+//@   ensures[C04 C05 unary-table] ncalls("(*parser).appendErrorForToken") <= 1 && ((ncalls("(*parser).appendErrorForToken") == 0) <==> ((unaryExp.Op == OP_MINUS && rt == NUM_TYPE) || (unaryExp.Op == OP_BANG && rt == BOOL_TYPE)))
+//@   ensures[C03 located] ncalls("(*parser).appendErrorForToken") == 1 ==> callarg("(*parser).appendErrorForToken", 1, 2).(*lexer.Token) == unaryExp.token
+//@   modifies p.errors, class elem:*parser.Error
+
+// ---- C05: a condition that is not of type bool is reported ----
+
+//@ func (p *parser) parseTopLevelExpr() (n Node)
+//@   noverify the Pratt parser itself is not under contract; it advances the parser and may append diagnostics
+//@   modifies everything
+
+//@ func (p *parser) assertEOL() ()
+//@   noverify appends a diagnostic unless the parser is at the end of a line
+//@   modifies everything
+
+//@ func (p *parser) parseCondition() (cond Node)
+//@   props C05 C04
+//@   let tok = old(p.cur)
+//@   let k = ncalls("(*parser).appendErrorForToken")
+//@   requires p.cur != nil
+//@   ensures[C05 expression-parsed-once] ncalls("(*parser).parseTopLevelExpr") == 1 && cond == callres("(*parser).parseTopLevelExpr", 1, 0)
+//@   ensures[C05 C04 condition-must-be-bool] cond != nil && callres("(Node).Type", 1, 0).(*Type) != BOOL_TYPE ==> k == 1 && callarg("(*parser).appendErrorForToken", 1, 2).(*lexer.Token) == tok
+//@   ensures[C05 bool-condition-not-rejected-here] cond != nil && callres("(Node).Type", 1, 0).(*Type) == BOOL_TYPE ==> k == 0
+//@   modifies everything
